@@ -266,7 +266,8 @@ def gen_case(rng, root_user, big=False):
         if r < 0.70:
             if e["kind"] == "file" and rng.random() < 0.6:
                 # identical bytes but other mode/owner/mtime, or identical metadata but other bytes
-                pre.append((loc, rng.choice(["file-samedata", "file-samedata", "file-samemeta"])))
+                pre.append((loc, rng.choice(["file-samedata", "file-samedata", "file-samemeta",
+                                             "file-setid", "file-setid-linked"])))
             else:
                 pre.append((loc, "same"))
         elif r < 0.82:
@@ -286,7 +287,8 @@ def gen_case(rng, root_user, big=False):
         e = rng.choice(files)
         newname = e["loc"][:-1] + (e["loc"][-1] + "#new",)
         pre = [(l, w) for l, w in pre if l != e["loc"] and l != newname]
-        pre.insert(0, (e["loc"], rng.choice(["file-samedata", "file-samedata", "file-samemeta"])))
+        pre.insert(0, (e["loc"], rng.choice(["file-samedata", "file-samedata", "file-samemeta",
+                                             "file-setid", "file-setid-linked"])))
     offmode = rng.choice(["offset", "offset", "offset", "offset-missing", "none"])
     if offmode == "offset-missing":
         pre = []
@@ -325,6 +327,15 @@ def build_root(base, case, rng_seed):
             what = {"dir": "dir", "file": "file", "sym": "sym-dangling", "fifo": "fifo", "dev": "file"}[kinds[loc]["kind"]]
         if what == "dir":
             os.mkdir(p, rng.choice([0o755, 0o711, 0o770]))
+        elif what in ("file-setid", "file-setid-linked"):
+            # a live set-uid / set-gid regular file that the set replaces, optionally with a hard link
+            # outside the set: anything done to it IN PLACE before the rename shows in both names
+            with open(p, "wb") as f:
+                f.write(b"SETID-OLD-%d" % n)
+            if what == "file-setid-linked":
+                os.link(p, os.path.join(root, "setid-link-%d" % n))
+            os.chmod(p, rng.choice([0o4755, 0o2755, 0o6711]))
+            continue
         elif what in ("file-samedata", "file-samemeta"):
             e = kinds[loc]
             with open(p, "wb") as f:
